@@ -18,7 +18,66 @@ func joinInts(xs []int) string {
 	return strings.Join(parts, ",")
 }
 
+// systematic: every schedule of two actors with at most two preemptions: actor x runs i steps, actor y
+// runs j steps, x runs k more steps, then both are finished round-robin (y first or x first).
+func genSystematic(out *hx.Out, prop string) {
+	type cfg struct {
+		ntab int
+		a, b string
+		w    []string
+	}
+	cfgs := []cfg{
+		{2, "actor x w 0,1 0,1 commit - -", "actor y w 1,0 0 commit - -", []string{"watch 0", "watch 1"}},
+		{2, "actor x w 0 0 commit - -", "actor y w 1 1 commit - -", []string{"watch 0"}},
+		{2, "actor x w 0,1 1 commit - -", "actor y w 0 0 abort - -", []string{"watch 0", "watch 1"}},
+		{1, "actor x w 0 0 commit 0:1 0:1", "actor y w 0 0 commit - -", []string{"iwatch 0", "watch 0"}},
+		{2, "actor x w 0,1 0,1 commit - -", "actor y reg", []string{"watch 1"}},
+		{1, "actor x w 0 0 abort - -", "actor y reg", nil},
+	}
+	c := 0
+	for ci, cf := range cfgs {
+		for i := 0; i <= 18; i++ {
+			for j := 1; j <= 18; j += 1 {
+				for k := 0; k <= 18; k += 3 {
+					out.P("#case sys-%s-%d-%d", prop, ci, c)
+					c++
+					out.P("tables %d", cf.ntab)
+					out.P("%s", cf.a)
+					out.P("%s", cf.b)
+					for _, w := range cf.w {
+						out.P("%s", w)
+					}
+					for s := 0; s < i; s++ {
+						out.P("step x")
+					}
+					for s := 0; s < j; s++ {
+						out.P("step y")
+					}
+					if len(cf.w) > 0 {
+						out.P("%s", cf.w[0])
+					}
+					for s := 0; s < k; s++ {
+						out.P("step x")
+					}
+					for s := 0; s < 20; s++ {
+						if (i+j+k)%2 == 0 {
+							out.P("step y")
+							out.P("step x")
+						} else {
+							out.P("step x")
+							out.P("step y")
+						}
+					}
+				}
+			}
+		}
+	}
+}
+
 func (e *eng) Gen(r *hx.Rand, n int, tier string, prop string, out *hx.Out) {
+	if tier == "thorough" {
+		genSystematic(out, prop)
+	}
 	for c := 0; c < n; c++ {
 		g := r.Fork()
 		out.P("#case %s-%d", prop, c)
